@@ -152,7 +152,7 @@ def st_solver(draw, spec, p=4):
 
 @st.composite
 def st_matching(draw, tier):
-    spec = draw(Z.st_eos(families=Z.FAMILIES, weights=FAMILY_WEIGHTS[tier]))
+    spec = draw(Z.st_eos(families=Z.FAMILIES, weights=FAMILY_WEIGHTS[tier], twostep_variants=("plain", "plain", "strongT")))
     tol = draw(Z.st_tolerances())
     if draw(st.integers(0, 5)) == 0:
         # a user-chosen absolute tolerance that is not negligible against the temperatures / energy densities of
@@ -167,7 +167,7 @@ def st_matching(draw, tier):
 @st.composite
 def st_jouguet(draw, tier):
     spec = draw(Z.st_eos(families=Z.ANALYTIC_FAMILIES if tier == "quick" else Z.FAMILIES,
-                         weights=None if tier == "quick" else FAMILY_WEIGHTS[tier]))
+                         weights=None if tier == "quick" else FAMILY_WEIGHTS[tier], twostep_variants=("plain", "plain", "strongT")))
     return {"kind": "jouguet", "eos": spec, "tol": draw(Z.st_tolerances()), "solver": draw(st_solver(spec, 3))}
 
 
@@ -319,6 +319,11 @@ def judge_matching(v, ctx, vw, res, cls0, want=None, sub_prefix=""):
     vp, vm, Tp, Tm = (float(x) for x in res)
     branch = Z.branch_of(vw, vp, vm)
     fb = "/fallback" if ctx.fallback["n"] > 0 else ""
+    if fb and ctx.hyd is not None and "/at-vMin" not in cls0:
+        # the listed finding C06-fallback-hybrid-nontemplate is the fallback taken within the solver's tolerance of vJ
+        # (where the branch is not defined to that accuracy); a fallback further below vJ is a different input
+        if ctx.hyd.vJ - vw > K * (atol + rtol * ctx.hyd.vJ) + 2e-6:
+            fb = "/fallback-below-vJ"
     if ctx.solver == "general" and branch != "detonation" and ctx.hyd is not None and not ctx.hyd.success:
         fb += "/unconverged-flag"  # the inner 2x2 solve (scipy hybr) did not converge and the result was used anyway
         v.label("hybr-unconverged-flag")
@@ -876,7 +881,21 @@ def check_cut(case, v):
     ctx = setup(case, v, dict(spec, ranges=rg))
     try:
         hyd, _, _, vJ2 = ctx.make_solver()
-        vf = float(hyd.fastestDeflag())
+        # outside observer of the matchings fastestDeflag's root searches evaluate (used only to attribute a wrong
+        # answer to the known root cause C02-F1a: findMatching returning non-solutions to the root finder)
+        evaluated = []
+        inner = hyd.findMatching
+
+        def recording(vw_, *a_, **k_):
+            r_ = inner(vw_, *a_, **k_)
+            evaluated.append((float(vw_), r_))
+            return r_
+
+        hyd.findMatching = recording
+        try:
+            vf = float(hyd.fastestDeflag())
+        finally:
+            del hyd.findMatching
     except WallGoError as exc:
         v.label("outcome:WallGoError")
         v.info["error"] = str(exc)[:160]
@@ -911,15 +930,28 @@ def check_cut(case, v):
         else:
             # the same signature above 0.1 (weak transitions): does findMatching return non-solutions of the junction
             # conditions between the expected and the returned velocity?  (C02's subject, root cause C02-F1a)
+            marked = False
             for vv in np.linspace(min(vf, vfirst), max(vf, vfirst), 5):
                 try:
                     mres = hyd.findMatching(float(vv))
                     r1, r2 = R.wall_residuals(eos, *[float(x) for x in mres])
                     if max(abs(r1), abs(r2)) > 1e3 * max(rtol, 1e-9):
                         cls0 += "/nonsolution"
+                        marked = True
                         break
                 except Exception:  # noqa: BLE001
                     continue
+            if not marked:
+                # ... or did the root search itself receive one (typically from a slow-wall evaluation below 0.1) ?
+                for vv, mres in evaluated:
+                    try:
+                        r1, r2 = R.wall_residuals(eos, *[float(x) for x in mres])
+                    except Exception:  # noqa: BLE001
+                        continue
+                    if max(abs(r1), abs(r2)) > 1e3 * max(rtol, 1e-9):
+                        cls0 += "/search-got/nonsolution"
+                        v.info["nonsolution_evaluated_at"] = vv
+                        break
         v.fail("cut-fastest", cls0,
                f"{first}-T range ends at T({vfirst:.8g}) = {Tfirst:.8g}: fastestDeflag() = {vf:.10g}, expected "
                f"{vfirst:.10g} (difference {vf - vfirst:.3e}, allowed {allowed:.2e}); vMin = {vmin:.6g}, vJ = {vJ2:.8g}",
@@ -996,6 +1028,8 @@ def check_case(case) -> Verdict:
     v = Verdict()
     kind = case["kind"]
     spec = case["eos"]
+    if spec["family"] == "twostep":
+        v.label("twostep:" + ("strongT" if spec.get("strongT") else "steepT" if spec.get("steepT") else "plain"))
     v.label(f"kind:{kind}", f"family:{spec['family']}", f"solver:{case.get('solver', 'general')}",
             f"tol:{float(case['tol'][0]):g}")
     if kind == "matching":
